@@ -47,6 +47,7 @@ import GluonModel.Proofs.Compile
 import GluonModel.Proofs.CompileHeap
 import GluonModel.Proofs.CompileInner
 import GluonModel.Proofs.CompileLambda
+import GluonModel.Proofs.CompileApply
 
 namespace GluonModel.Props.C01b
 open GluonModel.Core GluonModel.Bytecode GluonModel.Compile GluonModel.Proofs.Compile
@@ -475,7 +476,11 @@ example : (compileE 5 exBranch true 0 FState.empty).2.inner = [] := by rfl
       `body` may call `f` recursively, and the earlier functions of the chain, with exact arity,
       in tail position or not), capturing any variables in scope (`dom`);
     * plain bindings `let x = e₁ in …` with `e₁` in F2 (so `e₁` may call the functions bound
-      before it).
+      before it);
+    * `match s with | {record pattern} -> …` with a single closed-row record alternative and
+      `s` in F2 (`let { … } = s in …`, and the two wrappers `match @std.types with {} -> match
+      @std.prim with { error } -> …` every program compiled without the implicit prelude starts
+      with), the alternative's body continuing in F3.
 
     The code `compile e` — `NewClosure; Push f; <load every captured variable>; CloseClosure`
     for each lambda, then the rest — placed at any index of any function whose tables extend the
@@ -490,7 +495,7 @@ example : (compileE 5 exBranch true 0 FState.empty).2.inner = [] := by rfl
 
     Missing for the full F3/F4: groups of several mutually recursive lambdas created by one
     `Named::Recursive` (the semantic half is `rec_group_correct_F3`), lambdas *inside* function
-    bodies or under `match` (the heap would change during a call: `Returns` keeps one heap),
+    bodies or under a `match` with several alternatives (the heap would change during a call: `Returns` keeps one heap),
     closures as values (returned, passed, stored), partial and excess application. -/
 theorem compile_correct_F3_partial (seIdx : Nat) (Φ : List (Sym × Nat)) (dom : List Sym) (e : Expr)
     (hF : inF3 seIdx e Φ dom = true)
@@ -580,6 +585,83 @@ example : (runModule 1000 (compileModule 5 exLoopProg).2.1 []).map (·.1) = .ok 
 example : (compileModule 5 exLoopProg).2.1.instrs =
     [.pushInt 10, .newClosure 0 2, .push 1, .push 0, .push 1, .closeClosure 2, .push 1, .pushInt 3,
      .pushInt 0, .tailCall 2, .slide 2, .ret] := by rfl
+
+/-- the prelude-off wrapper of every generated program, around the recursive loop above:
+    `match @std.prim with { error } -> let k = 10 in let rec loop … in loop 3 0` -/
+def exWrapped : Expr :=
+  .match_ (.ident ⟨"@std.prim", 0⟩)
+    [(.record 2 false [⟨"error", some 1, ⟨"error", 20⟩⟩] [none, some ⟨"error", 20⟩], exLoopProg)]
+example : inF3 5 exWrapped [] [⟨"@std.prim", 0⟩] = true := by rfl
+example : inF2 [] exWrapped = false := by rfl
+example : evalCore 50 [(⟨"@std.prim", 0⟩, .data 0 [.int 0, .int 1] ["a", "error"])] exWrapped =
+    .ok (.int 16) := by rfl
+
+/-! ### F4, the machine side: under- and over-application in the model VM -/
+
+/-- **`Call n` with too few arguments** (thread.rs :2712): one step of the machine replaces
+    function and arguments by a `PartialApplication` holding them; the frame goes on. -/
+theorem vm_call_partial {fn g : Fn} {upv gupv : List Val} {h : Heap} {pc id : Nat}
+    {below stk args : List Val} {fr : Frame} {rest : List Frame} (ho : fr.offset = below.length)
+    (hc : h.clos[fr.clos]? = some (fn, upv)) (hi : fn.instrs[pc]? = some (.call args.length))
+    (hg : h.clos[id]? = some (g, gupv)) (hlt : args.length < g.args) :
+    step ⟨below ++ (stk ++ [Val.cref id] ++ args), ({ fr with pc := pc } : Frame) :: rest, h⟩ =
+      .running ⟨below ++ stk ++ [Val.pap (.cref id) args], ({ fr with pc := pc + 1 } : Frame) :: rest, h⟩ :=
+  step_call_partial ho hc hi hg hlt
+
+/-- **Calling a `PartialApplication` with the missing arguments** (thread.rs :2777): the stored
+    arguments are inserted before the new ones and the closure's frame is entered. -/
+theorem vm_call_pap {frames : List Frame} {h : Heap} {id : Nat} {g : Fn} {gupv : List Val}
+    {below args₀ args : List Val} (hg : h.clos[id]? = some (g, gupv))
+    (hn : g.args = args₀.length + args.length) :
+    doCall ⟨below ++ [Val.pap (.cref id) args₀] ++ args, frames, h⟩ args.length =
+      .running ⟨below ++ [Val.pap (.cref id) args₀] ++ args₀ ++ args,
+        ⟨(below ++ [Val.pap (.cref id) args₀]).length, false, id, 0⟩ :: frames, h⟩ :=
+  doCall_pap_exact hg hn
+
+/-- **`Call n` with too many arguments** (thread.rs :2722): the surplus is packed into a data
+    value stored below the function slot; the callee is entered on exactly its own arguments
+    with `excess = true`. -/
+theorem vm_call_excess {fn g : Fn} {upv gupv : List Val} {h : Heap} {pc id : Nat}
+    {below stk need extra : List Val} {fr : Frame} {rest : List Frame} (ho : fr.offset = below.length)
+    (hc : h.clos[fr.clos]? = some (fn, upv))
+    (hi : fn.instrs[pc]? = some (.call (need ++ extra).length))
+    (hg : h.clos[id]? = some (g, gupv)) (hn : g.args = need.length) (hx : extra ≠ []) :
+    step ⟨below ++ (stk ++ [Val.cref id] ++ (need ++ extra)), ({ fr with pc := pc } : Frame) :: rest, h⟩ =
+      .running ⟨below ++ stk ++ [Val.data 0 extra []] ++ [Val.cref id] ++ need,
+        ⟨(below ++ stk ++ [Val.data 0 extra []] ++ [Val.cref id]).length, true, id, 0⟩ ::
+          ({ fr with pc := pc + 1 } : Frame) :: rest, h⟩ :=
+  step_call_excess ho hc hi hg hn hx
+
+/-- **`Return` from a frame entered with excess arguments** (thread.rs :2527): the result takes
+    the place of frame, function slot and packed surplus, the surplus is unpacked after it, and
+    the *result is called* with it. -/
+theorem vm_return_excess {g : Fn} {gupv : List Val} {h : Heap} {pcR id : Nat}
+    {below s extra : List Val} {v : Val} {frames : List Frame}
+    (hg : h.clos[id]? = some (g, gupv)) (hret : g.instrs[pcR]? = some .ret) :
+    step ⟨below ++ [Val.data 0 extra []] ++ [Val.cref id] ++ (s ++ [v]),
+        ⟨(below ++ [Val.data 0 extra []] ++ [Val.cref id]).length, true, id, pcR⟩ :: frames, h⟩ =
+      doCall ⟨below ++ [v] ++ extra, frames, h⟩ extra.length :=
+  step_ret_excess hg hret
+
+/-- `let f x y = x + y in (f 1) 2` (partial application, then the `pap` is called) and
+    `let i x = x in let g y = y + 1 in i g 5` (excess argument: `i`'s result is called) -/
+def exPartial : Expr :=
+  .letRec [(exF, [exX, exY], .call (.ident ⟨"#Int+", 3⟩) [.ident exX, .ident exY])]
+    (.call (.call (.ident exF) [.const (.int 1)]) [.const (.int 2)])
+def exG : Sym := ⟨"g", 21⟩
+def exI : Sym := ⟨"i", 22⟩
+def exExcess : Expr :=
+  .letRec [(exI, [exX], .ident exX)]
+    (.letRec [(exG, [exY], .call (.ident ⟨"#Int+", 3⟩) [.ident exY, .const (.int 1)])]
+      (.call (.ident exI) [.ident exG, .const (.int 5)]))
+example : evalCore 20 [] exPartial = .ok (.int 3) := by rfl
+example : (runModule 100 (compileModule 5 exPartial).2.1 []).map (·.1) = .ok (.int 3) := by rfl
+example : evalCore 20 [] exExcess = .ok (.int 6) := by rfl
+example : (runModule 100 (compileModule 5 exExcess).2.1 []).map (·.1) = .ok (.int 6) := by rfl
+def exHeap : Heap := { clos := [((compileModule 5 exPartial).2.1.inner.headD default, [])], data := [] }
+example : doCall ⟨[] ++ [Val.cref 0] ++ [Val.int 1], [], exHeap⟩ 1 =
+    .running ⟨[] ++ [Val.pap (.cref 0) [.int 1]], [], exHeap⟩ :=
+  doCall_partial (args := [Val.int 1]) rfl (by decide)
 
 /-- What is proved of the full statement `compile_correct` (see the header): the highest rung
     reached, F2 on known closures. -/
